@@ -150,6 +150,7 @@ func TestVerifC17Legacy(t *testing.T) {
 				ok, detail := verifGrant(ctx, tok)
 				allEqual := iss == kd && kd == k
 				r.Eval("matrix|" + iss + kd + k)
+				r.Sample(map[string]any{"scenario": "matrix", "iss": iss, "kid_did": kd, "signing_key": k, "granted": ok})
 				r.Outcome(fmt.Sprintf("matrix all-equal=%v granted=%v", allEqual, ok))
 				if allEqual {
 					if !ok {
@@ -188,7 +189,11 @@ func TestVerifC17Legacy(t *testing.T) {
 		if ok, detail := verifGrant(ctx, orig); !ok {
 			t.Fatalf("harness: valid %s grant refused: %s", fam, detail)
 		}
-		variants, err := enum.JOSEVariants(enum.JOSEInput{Token: orig, Signer: signer, Foreign: foreign, Rogue: rogue, FlipStride: 3})
+		in := enum.JOSEInput{Token: orig, Signer: signer, Foreign: foreign, Rogue: rogue, FlipStride: 3}
+		if r.Thorough() {
+			in.FlipStride, in.FlipAllBits = 1, true
+		}
+		variants, err := enum.JOSEVariants(in)
 		if err != nil {
 			t.Fatal(err)
 		}
